@@ -33,7 +33,9 @@ import (
 //	world miners=<n> hr=<GHS each> cycle=<s>
 //	chain <c> state=0|1 age=<s since purchase> len=<s> hr=<GHS> payload=<kind>     (chain state, no event)
 //	startnode | restart
-//	purchased <c> len=<s> hr=<GHS> payload=<kind> | closed <c> | destupdate <c> payload=<kind> | advance <s>
+//	purchased <c> [len=<s> hr=<GHS>] payload=<kind> | closed <c> | destupdate <c> payload=<kind> | advance <s>
+//	termsupdate <c> len=<s> hr=<GHS>      (the seller changes the terms: applied at once to an available contract,
+//	                                       kept as future terms of a running one and applied when it closes)
 //
 // payload kinds: v:<host> (a pool URL encrypted for the seller), empty, garbage (hex that does not decrypt),
 // nothex, noturl (decrypts to something url.Parse refuses).
@@ -197,7 +199,8 @@ func (w *sellerWorld) observe(tr *vh.Transcript) {
 		if ctr.Error() != nil {
 			e = 1
 		}
-		tr.Out("ctr %s state=%s run=%d dest=%s err=%d", n, ctr.State(), run, dest, e)
+		tr.Out("ctr %s state=%s run=%d dest=%s err=%d hr=%d len=%d", n, ctr.State(), run, dest, e,
+			int(ctr.ResourceEstimates()[ResourceEstimateHashrateGHS]+0.5), int(ctr.Duration()/time.Second))
 		// the watcher's own account of every cycle that ended since the last observation
 		if ws, ok := ctr.(*ControllerSeller); ok {
 			logs, _ := ws.GetDeliveryLogs()
@@ -350,7 +353,23 @@ func sellerExec(tr *vh.Transcript, ops []string) {
 			if c := w.chain.Get(sellerAddr(f[1])); c != nil {
 				b := c.Buyer
 				c.State, c.Buyer, c.EncrValidatorURL = 0, common.Address{}, ""
+				if c.HasFutureTerms { // the closeout applies the terms that were waiting
+					c.Length, c.Speed, c.HasFutureTerms = c.FutureLength, c.FutureSpeed, false
+					c.Version++
+				}
 				go w.chain.Emit(c.Addr, "contractClosed", b)
+			}
+		case "termsupdate":
+			if c := w.chain.Get(sellerAddr(f[1])); c != nil {
+				if c.State == 1 {
+					fut := &vh.ChainContract{Length: c.Length, Speed: c.Speed}
+					setC(fut, m)
+					c.FutureLength, c.FutureSpeed, c.HasFutureTerms = fut.Length, fut.Speed, true
+				} else {
+					setC(c, m)
+					c.Version++
+				}
+				go w.chain.Emit(c.Addr, "purchaseInfoUpdated", w.me)
 			}
 		case "destupdate":
 			if c := w.chain.Get(sellerAddr(f[1])); c != nil {
@@ -487,6 +506,7 @@ func sellerGen(r *vh.Rng) []string {
 	kinds := []string{"v:poolx", "v:poolx", "v:pooly", "v:poolx", "empty", "garbage", "nothex", "noturl"}
 	names := []string{"c1", "c2"}
 	running := map[string]bool{}
+	newTerms := map[string]bool{} // the terms were updated since the last purchase: the next one takes them from the chain
 	for _, c := range names[:1+r.Intn(2)] {
 		if r.Bool(45) {
 			ops = append(ops, fmt.Sprintf("chain %s state=1 age=%d len=%d hr=1000 payload=%s", c, vh.Pick(r, []int{5, 100, 290, 400}), vh.Pick(r, []int{300, 300, 600}), vh.Pick(r, kinds)))
@@ -508,8 +528,12 @@ func sellerGen(r *vh.Rng) []string {
 		}
 		switch k := r.Intn(100); {
 		case k < 28 && !running[c]:
-			ops = append(ops, fmt.Sprintf("purchased %s len=%d hr=1000 payload=%s", c, vh.Pick(r, []int{120, 300, 600}), vh.Pick(r, kinds)))
-			running[c] = true
+			if newTerms[c] {
+				ops = append(ops, fmt.Sprintf("purchased %s payload=%s", c, vh.Pick(r, kinds)))
+			} else {
+				ops = append(ops, fmt.Sprintf("purchased %s len=%d hr=1000 payload=%s", c, vh.Pick(r, []int{120, 300, 600}), vh.Pick(r, kinds)))
+			}
+			running[c], newTerms[c] = true, false
 		case k < 42 && running[c]:
 			ops = append(ops, "closed "+c)
 			running[c] = false
@@ -517,6 +541,9 @@ func sellerGen(r *vh.Rng) []string {
 			ops = append(ops, fmt.Sprintf("destupdate %s payload=%s", c, vh.Pick(r, kinds)))
 		case k < 60:
 			ops = append(ops, "restart")
+		case k < 68:
+			ops = append(ops, fmt.Sprintf("termsupdate %s len=%d hr=%d", c, vh.Pick(r, []int{120, 240, 300, 600}), vh.Pick(r, []int{1000, 2000, 500})))
+			newTerms[c] = true
 		default:
 			ops = append(ops, fmt.Sprintf("advance %d", vh.Pick(r, []int{1, 9, 11, 30, 61, 130, 310})))
 		}
